@@ -2,6 +2,747 @@
    when the model was last validated against the code). Compared with the regenerated VGen.SkelC04 in VProps/PinC04.lean. -/
 namespace VPins.C04
 
+def eventV1__newEventFromTrustedJSONV1 : List String := [
+  "func func(eventJSON []byte, redacted bool, roomVersion IRoomVersion) (PDU, error)",
+  "res := &eventV1{}",
+  "if err := json.Unmarshal(eventJSON, res); err != nil {",
+  "return nil, err",
+  "}",
+  "if err := checkRoomIDField(res.eventFields.RoomID); err != nil {",
+  "return nil, fmt.Errorf(\"RoomID is invalid: %w\", err)",
+  "}",
+  "res.eventJSON = eventJSON",
+  "res.roomVersion = roomVersion.Version()",
+  "res.redacted = redacted",
+  "return res, nil"
+]
+
+def eventV1__newEventFromTrustedJSONWithEventIDV1 : List String := [
+  "func func(eventID string, eventJSON []byte, redacted bool, roomVersion IRoomVersion) (PDU, error)",
+  "res := &eventV1{}",
+  "if err := json.Unmarshal(eventJSON, res); err != nil {",
+  "return nil, err",
+  "}",
+  "if err := checkRoomIDField(res.eventFields.RoomID); err != nil {",
+  "return nil, err",
+  "}",
+  "res.EventIDRaw = eventID",
+  "res.eventJSON = eventJSON",
+  "res.roomVersion = roomVersion.Version()",
+  "res.redacted = redacted",
+  "return res, nil"
+]
+
+def eventV1__newEventFromUntrustedJSONV1 : List String := [
+  "func func(eventJSON []byte, roomVersion IRoomVersion) (PDU, error)",
+  "if r := gjson.GetBytes(eventJSON, \"_*\"); r.Exists() {",
+  "return nil, fmt.Errorf(\"gomatrixserverlib NewEventFromUntrustedJSON: found top-level '_' key, is this a headered event: %v\", string(eventJSON))",
+  "}",
+  "if err := roomVersion.CheckCanonicalJSON(eventJSON); err != nil {",
+  "return nil, BadJSONError{err}",
+  "}",
+  "res := &eventV1{}",
+  "res.roomVersion = roomVersion.Version()",
+  "var err error",
+  "for _, key := range []string{\"outlier\", \"destinations\", \"age_ts\", \"unsigned\"} {",
+  "if eventJSON, err = sjson.DeleteBytes(eventJSON, key); err != nil {",
+  "return nil, err",
+  "}",
+  "}",
+  "if err := json.Unmarshal(eventJSON, res); err != nil {",
+  "return nil, err",
+  "}",
+  "if err := checkRoomIDField(res.eventFields.RoomID); err != nil {",
+  "return nil, err",
+  "}",
+  "eventJSON = CanonicalJSONAssumeValid(eventJSON)",
+  "if l := len(eventJSON); l > maxEventLength {",
+  "return nil, EventValidationError{Code: EventValidationTooLarge, Message: fmt.Sprintf(\"gomatrixserverlib: event is too long, length %d bytes > maximum %d bytes\", l, maxEventLength)}",
+  "}",
+  "res.eventJSON = eventJSON",
+  "if err = checkEventContentHash(eventJSON); err != nil {",
+  "res.redacted = true",
+  "var redactedJSON []byte",
+  "if redactedJSON, err = roomVersion.RedactEventJSON(eventJSON); err != nil {",
+  "return nil, err",
+  "}",
+  "redactedJSON = CanonicalJSONAssumeValid(redactedJSON)",
+  "if !bytes.Equal(redactedJSON, eventJSON) {",
+  "result, err := roomVersion.NewEventFromTrustedJSON(redactedJSON, true)",
+  "if err != nil {",
+  "return nil, err",
+  "}",
+  "err = CheckFields(result)",
+  "return result, err",
+  "}",
+  "} else if _, err = roomVersion.RedactEventJSON(eventJSON); err != nil {",
+  "return nil, err",
+  "}",
+  "err = CheckFields(res)",
+  "return res, err"
+]
+
+def eventV1_eventV1_AuthEventIDs : List String := [
+  "func func() []string",
+  "result := make([]string, 0, len(e.AuthEvents))",
+  "for _, id := range e.AuthEvents {",
+  "result = append(result, id.EventID)",
+  "}",
+  "return result"
+]
+
+def eventV1_eventV1_Content : List String := [
+  "func func() []byte",
+  "return e.eventFields.Content"
+]
+
+def eventV1_eventV1_Depth : List String := [
+  "func func() int64",
+  "return e.eventFields.Depth"
+]
+
+def eventV1_eventV1_EventID : List String := [
+  "func func() string",
+  "return e.EventIDRaw"
+]
+
+def eventV1_eventV1_HistoryVisibility : List String := [
+  "func func() (HistoryVisibility, error)",
+  "if !e.StateKeyEquals(\"\") {",
+  "return \"\", fmt.Errorf(\"gomatrixserverlib: HistoryVisibility() event is not a m.room.history_visibility event, bad state key\")",
+  "}",
+  "var content HistoryVisibilityContent",
+  "if err := json.Unmarshal(e.eventFields.Content, &content); err != nil {",
+  "return \"\", err",
+  "}",
+  "return content.HistoryVisibility, nil"
+]
+
+def eventV1_eventV1_IsSticky : List String := [
+  "func func(now time.Time, received time.Time) bool",
+  "endTime := e.StickyEndTime(received)",
+  "if endTime.IsZero() {",
+  "return false",
+  "}",
+  "return endTime.After(now)"
+]
+
+def eventV1_eventV1_JSON : List String := [
+  "func func() []byte",
+  "return e.eventJSON"
+]
+
+def eventV1_eventV1_JoinRule : List String := [
+  "func func() (string, error)",
+  "if !e.StateKeyEquals(\"\") {",
+  "return \"\", fmt.Errorf(\"gomatrixserverlib: JoinRule() event is not a m.room.join_rules event, bad state key\")",
+  "}",
+  "var content JoinRuleContent",
+  "if err := json.Unmarshal(e.eventFields.Content, &content); err != nil {",
+  "return \"\", err",
+  "}",
+  "return content.JoinRule, nil"
+]
+
+def eventV1_eventV1_MarshalJSON : List String := [
+  "func func() ([]byte, error)",
+  "if e.eventJSON == nil {",
+  "return nil, fmt.Errorf(\"gomatrixserverlib: cannot serialise uninitialised Event\")",
+  "}",
+  "return e.eventJSON, nil"
+]
+
+def eventV1_eventV1_Membership : List String := [
+  "func func() (string, error)",
+  "var content struct { Membership string `json:\"membership\"` }",
+  "if err := json.Unmarshal(e.eventFields.Content, &content); err != nil {",
+  "return \"\", err",
+  "}",
+  "if e.StateKey() == nil {",
+  "return \"\", fmt.Errorf(\"gomatrixserverlib: Membersip() event is not a m.room.member event, missing state key\")",
+  "}",
+  "return content.Membership, nil"
+]
+
+def eventV1_eventV1_OriginServerTS : List String := [
+  "func func() spec.Timestamp",
+  "return e.eventFields.OriginServerTS"
+]
+
+def eventV1_eventV1_PowerLevels : List String := [
+  "func func() (*PowerLevelContent, error)",
+  "if !e.StateKeyEquals(\"\") {",
+  "return nil, fmt.Errorf(\"gomatrixserverlib: PowerLevels() event is not a m.room.power_levels event, bad state key\")",
+  "}",
+  "c, err := NewPowerLevelContentFromEvent(e)",
+  "if err != nil {",
+  "return nil, err",
+  "}",
+  "return &c, nil"
+]
+
+def eventV1_eventV1_PrevEventIDs : List String := [
+  "func func() []string",
+  "result := make([]string, 0, len(e.PrevEvents))",
+  "for _, id := range e.PrevEvents {",
+  "result = append(result, id.EventID)",
+  "}",
+  "return result"
+]
+
+def eventV1_eventV1_Redact : List String := [
+  "func func()",
+  "if e.redacted {",
+  "return",
+  "}",
+  "verImpl, err := GetRoomVersion(e.roomVersion)",
+  "if err != nil {",
+  "panic(fmt.Errorf(\"gomatrixserverlib: invalid event %v\", err))",
+  "}",
+  "eventJSON, err := verImpl.RedactEventJSON(e.eventJSON)",
+  "if err != nil {",
+  "panic(fmt.Errorf(\"gomatrixserverlib: invalid event %v\", err))",
+  "}",
+  "if eventJSON, err = EnforcedCanonicalJSON(eventJSON, e.roomVersion); err != nil {",
+  "panic(fmt.Errorf(\"gomatrixserverlib: invalid event %v\", err))",
+  "}",
+  "var res eventV1",
+  "err = json.Unmarshal(eventJSON, &res)",
+  "if err != nil {",
+  "panic(fmt.Errorf(\"gomatrixserverlib: populateFieldsFromJSON failed %v\", err))",
+  "}",
+  "res.redacted = true",
+  "res.roomVersion = e.roomVersion",
+  "res.eventJSON = eventJSON",
+  "*e = res"
+]
+
+def eventV1_eventV1_Redacted : List String := [
+  "func func() bool",
+  "return e.redacted"
+]
+
+def eventV1_eventV1_Redacts : List String := [
+  "func func() string",
+  "return e.eventFields.Redacts"
+]
+
+def eventV1_eventV1_RoomID : List String := [
+  "func func() spec.RoomID",
+  "roomID, err := spec.NewRoomID(e.eventFields.RoomID)",
+  "if err != nil {",
+  "panic(fmt.Errorf(\"RoomID is invalid: %w\", err))",
+  "}",
+  "return *roomID"
+]
+
+def eventV1_eventV1_SenderID : List String := [
+  "func func() spec.SenderID",
+  "return spec.SenderID(e.eventFields.SenderID)"
+]
+
+def eventV1_eventV1_SetUnsigned : List String := [
+  "func func(unsigned interface{}) (PDU, error)",
+  "var eventAsMap map[string]spec.RawJSON",
+  "var err error",
+  "if err = json.Unmarshal(e.eventJSON, &eventAsMap); err != nil {",
+  "return nil, err",
+  "}",
+  "unsignedJSON, err := json.Marshal(unsigned)",
+  "if err != nil {",
+  "return nil, err",
+  "}",
+  "eventAsMap[\"unsigned\"] = unsignedJSON",
+  "eventJSON, err := json.Marshal(eventAsMap)",
+  "if err != nil {",
+  "return nil, err",
+  "}",
+  "if eventJSON, err = EnforcedCanonicalJSON(eventJSON, e.roomVersion); err != nil {",
+  "return nil, err",
+  "}",
+  "result := *e",
+  "result.eventJSON = eventJSON",
+  "result.eventFields.Unsigned = unsignedJSON",
+  "return &result, nil"
+]
+
+def eventV1_eventV1_SetUnsignedField : List String := [
+  "func func(path string, value interface{}) error",
+  "path = \"unsigned.\" + path",
+  "eventJSON, err := sjson.SetBytes(e.eventJSON, path, value)",
+  "if err != nil {",
+  "return err",
+  "}",
+  "eventJSON = CanonicalJSONAssumeValid(eventJSON)",
+  "res := gjson.GetBytes(eventJSON, \"unsigned\")",
+  "e.eventFields.Unsigned = []byte(res.Raw)",
+  "e.eventJSON = eventJSON",
+  "return nil"
+]
+
+def eventV1_eventV1_Sign : List String := [
+  "func func(signingName string, keyID KeyID, privateKey ed25519.PrivateKey) PDU",
+  "eventJSON, err := signEvent(signingName, keyID, privateKey, e.eventJSON, e.roomVersion)",
+  "if err != nil {",
+  "panic(fmt.Errorf(\"gomatrixserverlib: invalid event %v (%q)\", err, string(e.eventJSON)))",
+  "}",
+  "if eventJSON, err = EnforcedCanonicalJSON(eventJSON, e.roomVersion); err != nil {",
+  "panic(fmt.Errorf(\"gomatrixserverlib: invalid event %v (%q)\", err, string(e.eventJSON)))",
+  "}",
+  "res := &e",
+  "(*res).eventJSON = eventJSON",
+  "return *res"
+]
+
+def eventV1_eventV1_StateKey : List String := [
+  "func func() *string",
+  "return e.eventFields.StateKey"
+]
+
+def eventV1_eventV1_StateKeyEquals : List String := [
+  "func func(s string) bool",
+  "if e.eventFields.StateKey == nil {",
+  "return false",
+  "}",
+  "return *e.eventFields.StateKey == s"
+]
+
+def eventV1_eventV1_StickyEndTime : List String := [
+  "func func(received time.Time) time.Time",
+  "return e.calculatedStickyEndTime(e.assumedStickyStartTime(received))"
+]
+
+def eventV1_eventV1_ToHeaderedJSON : List String := [
+  "func func() ([]byte, error)",
+  "var err error",
+  "eventJSON := e.JSON()",
+  "eventJSON, err = sjson.SetBytes(eventJSON, \"_room_version\", e.Version())",
+  "if err != nil {",
+  "return []byte{}, err",
+  "}",
+  "eventJSON, err = sjson.SetBytes(eventJSON, \"_event_id\", e.EventID())",
+  "if err != nil {",
+  "return []byte{}, err",
+  "}",
+  "return eventJSON, nil"
+]
+
+def eventV1_eventV1_Type : List String := [
+  "func func() string",
+  "return e.eventFields.Type"
+]
+
+def eventV1_eventV1_Unsigned : List String := [
+  "func func() []byte",
+  "return e.eventFields.Unsigned"
+]
+
+def eventV1_eventV1_Version : List String := [
+  "func func() RoomVersion",
+  "return e.roomVersion"
+]
+
+def eventV1_eventV1_assumedStickyStartTime : List String := [
+  "func func(received time.Time) time.Time",
+  "if e.OriginServerTS().Time().Before(received) {",
+  "return e.OriginServerTS().Time()",
+  "}",
+  "return received"
+]
+
+def eventV1_eventV1_calculatedStickyEndTime : List String := [
+  "func func(startTime time.Time) time.Time",
+  "durationMillis := e.StableSticky.DurationMillis",
+  "if durationMillis == 0 {",
+  "durationMillis = e.UnstableSticky.DurationMillis",
+  "}",
+  "if durationMillis == 0 {",
+  "return time.Time{}",
+  "}",
+  "if durationMillis > 3600000 {",
+  "durationMillis = 3600000",
+  "}",
+  "return startTime.Add(time.Duration(durationMillis) * time.Millisecond)"
+]
+
+def eventV2__CheckFields : List String := [
+  "func func(input PDU) error",
+  "if input.AuthEventIDs() == nil || input.PrevEventIDs() == nil {",
+  "return errors.New(\"gomatrixserverlib: auth events and prev events must not be nil\")",
+  "}",
+  "if l := len(input.JSON()); l > maxEventLength {",
+  "return EventValidationError{Code: EventValidationTooLarge, Message: fmt.Sprintf(\"gomatrixserverlib: event is too long, length %d bytes > maximum %d bytes\", l, maxEventLength)}",
+  "}",
+  "if l := utf8.RuneCountInString(input.Type()); l > maxIDLength {",
+  "return EventValidationError{Code: EventValidationTooLarge, Message: fmt.Sprintf(\"gomatrixserverlib: event type is too long, length %d bytes > maximum %d bytes\", l, maxIDLength)}",
+  "}",
+  "if input.StateKey() != nil {",
+  "if l := utf8.RuneCountInString(*input.StateKey()); l > maxIDLength {",
+  "return EventValidationError{Code: EventValidationTooLarge, Message: fmt.Sprintf(\"gomatrixserverlib: state key is too long, length %d bytes > maximum %d bytes\", l, maxIDLength)}",
+  "}",
+  "}",
+  "if l := utf8.RuneCountInString(string(input.SenderID())); l > maxIDLength {",
+  "return EventValidationError{Code: EventValidationTooLarge, Message: fmt.Sprintf(\"gomatrixserverlib: sender is too long, length %d > maximum %d\", l, maxIDLength)}",
+  "}",
+  "switch input.Version() {",
+  "case RoomVersionPseudoIDs:",
+  "default:",
+  "if _, err := domainFromID(string(input.SenderID())); err != nil {",
+  "return err",
+  "}",
+  "if id := string(input.SenderID()); id[0] != '@' {",
+  "return checkID(id, \"user\", '@')",
+  "}",
+  "}",
+  "_, persistable := lenientByteLimitRoomVersions[input.Version()]",
+  "if l := len(input.Type()); l > maxIDLength {",
+  "return EventValidationError{Code: EventValidationTooLarge, Message: fmt.Sprintf(\"gomatrixserverlib: event type is too long, length %d bytes > maximum %d bytes\", l, maxIDLength), Persistable: persistable}",
+  "}",
+  "if input.StateKey() != nil {",
+  "if l := len(*input.StateKey()); l > maxIDLength {",
+  "return EventValidationError{Code: EventValidationTooLarge, Message: fmt.Sprintf(\"gomatrixserverlib: state key is too long, length %d bytes > maximum %d bytes\", l, maxIDLength), Persistable: persistable}",
+  "}",
+  "}",
+  "if l := len(input.SenderID()); l > maxIDLength {",
+  "return EventValidationError{Code: EventValidationTooLarge, Message: fmt.Sprintf(\"gomatrixserverlib: user ID is too long, length %d bytes > maximum %d bytes\", l, maxIDLength), Persistable: true}",
+  "}",
+  "return nil"
+]
+
+def eventV2__newEventFromTrustedJSONV2 : List String := [
+  "func func(eventJSON []byte, redacted bool, roomVersion IRoomVersion) (PDU, error)",
+  "res := eventV2{}",
+  "if err := json.Unmarshal(eventJSON, &res); err != nil {",
+  "return nil, err",
+  "}",
+  "if err := checkRoomIDField(res.eventFields.RoomID); err != nil {",
+  "return nil, err",
+  "}",
+  "res.roomVersion = roomVersion.Version()",
+  "res.redacted = redacted",
+  "res.eventJSON = eventJSON",
+  "if err := res.populateEventID(roomVersion); err != nil {",
+  "return nil, err",
+  "}",
+  "return &res, nil"
+]
+
+def eventV2__newEventFromTrustedJSONWithEventIDV2 : List String := [
+  "func func(eventID string, eventJSON []byte, redacted bool, roomVersion IRoomVersion) (PDU, error)",
+  "res := &eventV2{}",
+  "if err := json.Unmarshal(eventJSON, res); err != nil {",
+  "return nil, err",
+  "}",
+  "if err := checkRoomIDField(res.eventFields.RoomID); err != nil {",
+  "return nil, err",
+  "}",
+  "res.roomVersion = roomVersion.Version()",
+  "res.eventJSON = eventJSON",
+  "res.EventIDRaw = eventID",
+  "res.redacted = redacted",
+  "return res, nil"
+]
+
+def eventV2__newEventFromUntrustedJSONV2 : List String := [
+  "func func(eventJSON []byte, roomVersion IRoomVersion) (PDU, error)",
+  "if r := gjson.GetBytes(eventJSON, \"_*\"); r.Exists() {",
+  "return nil, fmt.Errorf(\"gomatrixserverlib NewEventFromUntrustedJSON: found top-level '_' key, is this a headered event: %v\", string(eventJSON))",
+  "}",
+  "if err := roomVersion.CheckCanonicalJSON(eventJSON); err != nil {",
+  "return nil, BadJSONError{err}",
+  "}",
+  "res := &eventV2{}",
+  "var err error",
+  "for _, key := range []string{\"outlier\", \"destinations\", \"age_ts\", \"unsigned\", \"event_id\"} {",
+  "if eventJSON, err = sjson.DeleteBytes(eventJSON, key); err != nil {",
+  "return nil, err",
+  "}",
+  "}",
+  "if err = json.Unmarshal(eventJSON, res); err != nil {",
+  "return nil, err",
+  "}",
+  "res.EventIDRaw = \"\"",
+  "if err := checkRoomIDField(res.eventFields.RoomID); err != nil {",
+  "return nil, err",
+  "}",
+  "res.roomVersion = roomVersion.Version()",
+  "eventJSON = CanonicalJSONAssumeValid(eventJSON)",
+  "if l := len(eventJSON); l > maxEventLength {",
+  "return nil, EventValidationError{Code: EventValidationTooLarge, Message: fmt.Sprintf(\"gomatrixserverlib: event is too long, length %d bytes > maximum %d bytes\", l, maxEventLength)}",
+  "}",
+  "res.eventJSON = eventJSON",
+  "if err = checkEventContentHash(eventJSON); err != nil {",
+  "res.redacted = true",
+  "var redactedJSON []byte",
+  "if redactedJSON, err = roomVersion.RedactEventJSON(eventJSON); err != nil {",
+  "return nil, err",
+  "}",
+  "if redactedJSON, err = sjson.DeleteBytes(redactedJSON, \"event_id\"); err != nil {",
+  "return nil, err",
+  "}",
+  "redactedJSON = CanonicalJSONAssumeValid(redactedJSON)",
+  "if !bytes.Equal(redactedJSON, eventJSON) {",
+  "result, err := roomVersion.NewEventFromTrustedJSON(redactedJSON, true)",
+  "if err != nil {",
+  "return nil, err",
+  "}",
+  "err = CheckFields(result)",
+  "return result, err",
+  "}",
+  "}",
+  "if err = res.populateEventID(roomVersion); err != nil {",
+  "return nil, err",
+  "}",
+  "err = CheckFields(res)",
+  "return res, err"
+]
+
+def eventV2_eventV2_AuthEventIDs : List String := [
+  "func func() []string",
+  "return e.AuthEvents"
+]
+
+def eventV2_eventV2_EventID : List String := [
+  "func func() string",
+  "if e.EventIDRaw != \"\" {",
+  "return e.EventIDRaw",
+  "}",
+  "ref, err := referenceOfEvent(e.eventJSON, e.roomVersion)",
+  "if err != nil {",
+  "panic(fmt.Errorf(\"failed to generate reference of event: %w\", err))",
+  "}",
+  "return ref.EventID"
+]
+
+def eventV2_eventV2_MarshalJSON : List String := [
+  "func func() ([]byte, error)",
+  "if e.eventJSON == nil {",
+  "return nil, fmt.Errorf(\"gomatrixserverlib: cannot serialise uninitialised Event\")",
+  "}",
+  "return e.eventJSON, nil"
+]
+
+def eventV2_eventV2_PrevEventIDs : List String := [
+  "func func() []string",
+  "return e.PrevEvents"
+]
+
+def eventV2_eventV2_Redact : List String := [
+  "func func()",
+  "if e.redacted {",
+  "return",
+  "}",
+  "verImpl, err := GetRoomVersion(e.roomVersion)",
+  "if err != nil {",
+  "panic(fmt.Errorf(\"gomatrixserverlib: invalid event %v\", err))",
+  "}",
+  "eventJSON, err := verImpl.RedactEventJSON(e.eventJSON)",
+  "if err != nil {",
+  "panic(fmt.Errorf(\"gomatrixserverlib: invalid event %v\", err))",
+  "}",
+  "if eventJSON, err = EnforcedCanonicalJSON(eventJSON, e.roomVersion); err != nil {",
+  "panic(fmt.Errorf(\"gomatrixserverlib: invalid event %v\", err))",
+  "}",
+  "var res eventV2",
+  "err = json.Unmarshal(eventJSON, &res)",
+  "if err != nil {",
+  "panic(fmt.Errorf(\"gomatrixserverlib: Redact failed %v\", err))",
+  "}",
+  "res.redacted = true",
+  "res.eventJSON = eventJSON",
+  "res.roomVersion = e.roomVersion",
+  "if res.EventIDRaw == \"\" {",
+  "res.EventIDRaw = e.EventIDRaw",
+  "}",
+  "*e = res"
+]
+
+def eventV2_eventV2_SenderID : List String := [
+  "func func() spec.SenderID",
+  "return spec.SenderID(e.eventFields.SenderID)"
+]
+
+def eventV2_eventV2_SetUnsigned : List String := [
+  "func func(unsigned interface{}) (PDU, error)",
+  "var eventAsMap map[string]spec.RawJSON",
+  "var err error",
+  "if err = json.Unmarshal(e.eventJSON, &eventAsMap); err != nil {",
+  "return nil, err",
+  "}",
+  "unsignedJSON, err := json.Marshal(unsigned)",
+  "if err != nil {",
+  "return nil, err",
+  "}",
+  "eventAsMap[\"unsigned\"] = unsignedJSON",
+  "eventJSON, err := json.Marshal(eventAsMap)",
+  "if err != nil {",
+  "return nil, err",
+  "}",
+  "if eventJSON, err = EnforcedCanonicalJSON(eventJSON, e.roomVersion); err != nil {",
+  "return nil, err",
+  "}",
+  "result := *e",
+  "result.eventJSON = eventJSON",
+  "result.eventFields.Unsigned = unsignedJSON",
+  "return &result, nil"
+]
+
+def eventV2_eventV2_Sign : List String := [
+  "func func(signingName string, keyID KeyID, privateKey ed25519.PrivateKey) PDU",
+  "eventJSON, err := signEvent(signingName, keyID, privateKey, e.eventJSON, e.roomVersion)",
+  "if err != nil {",
+  "panic(fmt.Errorf(\"gomatrixserverlib: invalid event %v (%q)\", err, string(e.eventJSON)))",
+  "}",
+  "if eventJSON, err = EnforcedCanonicalJSON(eventJSON, e.roomVersion); err != nil {",
+  "panic(fmt.Errorf(\"gomatrixserverlib: invalid event %v (%q)\", err, string(e.eventJSON)))",
+  "}",
+  "res := &e",
+  "(*res).eventJSON = eventJSON",
+  "return *res"
+]
+
+def eventV2_eventV2_populateEventID : List String := [
+  "func func(verImpl IRoomVersion) error",
+  "if e.EventIDRaw != \"\" {",
+  "return nil",
+  "}",
+  "ref, err := referenceOfEventForVersion(e.eventJSON, verImpl)",
+  "if err != nil {",
+  "return fmt.Errorf(\"failed to generate reference of event: %w\", err)",
+  "}",
+  "e.EventIDRaw = ref.EventID",
+  "return nil"
+]
+
+def eventV3__checkRoomID : List String := [
+  "func func(res *eventV3) error",
+  "isCreateEvent := res.Type() == spec.MRoomCreate && res.StateKeyEquals(\"\")",
+  "if !isCreateEvent && !strings.HasPrefix(res.eventFields.RoomID, \"!\") {",
+  "return fmt.Errorf(\"gomatrixserverlib: room_id must start with !\")",
+  "}",
+  "if !isCreateEvent {",
+  "if _, err := spec.NewRoomID(res.eventFields.RoomID); err != nil {",
+  "return fmt.Errorf(\"gomatrixserverlib: invalid room ID %q: %w\", res.eventFields.RoomID, err)",
+  "}",
+  "}",
+  "return nil"
+]
+
+def eventV3__newEventFromTrustedJSONV3 : List String := [
+  "func func(eventJSON []byte, redacted bool, roomVersion IRoomVersion) (PDU, error)",
+  "res := eventV3{}",
+  "if err := json.Unmarshal(eventJSON, &res); err != nil {",
+  "return nil, err",
+  "}",
+  "if err := checkRoomID(&res); err != nil {",
+  "return nil, err",
+  "}",
+  "res.roomVersion = roomVersion.Version()",
+  "res.redacted = redacted",
+  "res.eventJSON = eventJSON",
+  "if err := res.populateEventID(roomVersion); err != nil {",
+  "return nil, err",
+  "}",
+  "return &res, nil"
+]
+
+def eventV3__newEventFromTrustedJSONWithEventIDV3 : List String := [
+  "func func(eventID string, eventJSON []byte, redacted bool, roomVersion IRoomVersion) (PDU, error)",
+  "res := &eventV3{}",
+  "if err := json.Unmarshal(eventJSON, res); err != nil {",
+  "return nil, err",
+  "}",
+  "if err := checkRoomID(res); err != nil {",
+  "return nil, err",
+  "}",
+  "res.roomVersion = roomVersion.Version()",
+  "res.eventJSON = eventJSON",
+  "res.EventIDRaw = eventID",
+  "res.redacted = redacted",
+  "return res, nil"
+]
+
+def eventV3__newEventFromUntrustedJSONV3 : List String := [
+  "func func(eventJSON []byte, roomVersion IRoomVersion) (PDU, error)",
+  "if r := gjson.GetBytes(eventJSON, \"_*\"); r.Exists() {",
+  "return nil, fmt.Errorf(\"gomatrixserverlib NewEventFromUntrustedJSON: found top-level '_' key, is this a headered event: %v\", string(eventJSON))",
+  "}",
+  "if err := roomVersion.CheckCanonicalJSON(eventJSON); err != nil {",
+  "return nil, BadJSONError{err}",
+  "}",
+  "res := &eventV3{}",
+  "var err error",
+  "for _, key := range []string{\"outlier\", \"destinations\", \"age_ts\", \"unsigned\", \"event_id\"} {",
+  "if eventJSON, err = sjson.DeleteBytes(eventJSON, key); err != nil {",
+  "return nil, err",
+  "}",
+  "}",
+  "if err = json.Unmarshal(eventJSON, res); err != nil {",
+  "return nil, err",
+  "}",
+  "res.EventIDRaw = \"\"",
+  "if err := checkRoomID(res); err != nil {",
+  "return nil, err",
+  "}",
+  "res.roomVersion = roomVersion.Version()",
+  "eventJSON = CanonicalJSONAssumeValid(eventJSON)",
+  "if l := len(eventJSON); l > maxEventLength {",
+  "return nil, EventValidationError{Code: EventValidationTooLarge, Message: fmt.Sprintf(\"gomatrixserverlib: event is too long, length %d bytes > maximum %d bytes\", l, maxEventLength)}",
+  "}",
+  "res.eventJSON = eventJSON",
+  "if err = checkEventContentHash(eventJSON); err != nil {",
+  "res.redacted = true",
+  "var redactedJSON []byte",
+  "if redactedJSON, err = roomVersion.RedactEventJSON(eventJSON); err != nil {",
+  "return nil, err",
+  "}",
+  "if redactedJSON, err = sjson.DeleteBytes(redactedJSON, \"event_id\"); err != nil {",
+  "return nil, err",
+  "}",
+  "redactedJSON = CanonicalJSONAssumeValid(redactedJSON)",
+  "if !bytes.Equal(redactedJSON, eventJSON) {",
+  "result, err := roomVersion.NewEventFromTrustedJSON(redactedJSON, true)",
+  "if err != nil {",
+  "return nil, err",
+  "}",
+  "err = CheckFields(result)",
+  "return result, err",
+  "}",
+  "}",
+  "if err = res.populateEventID(roomVersion); err != nil {",
+  "return nil, err",
+  "}",
+  "err = CheckFields(res)",
+  "return res, err"
+]
+
+def eventV3_eventV3_AuthEventIDs : List String := [
+  "func func() []string",
+  "isCreateEvent := e.Type() == spec.MRoomCreate && e.StateKeyEquals(\"\")",
+  "if isCreateEvent {",
+  "return []string{}",
+  "}",
+  "createEventID := fmt.Sprintf(\"$%s\", e.eventFields.RoomID[1:])",
+  "if len(e.AuthEvents) > 0 {",
+  "return append([]string{createEventID}, e.AuthEvents...)",
+  "}",
+  "return []string{createEventID}"
+]
+
+def eventV3_eventV3_RoomID : List String := [
+  "func func() spec.RoomID",
+  "roomIDStr := e.eventFields.RoomID",
+  "isCreateEvent := e.Type() == spec.MRoomCreate && e.StateKeyEquals(\"\")",
+  "if isCreateEvent {",
+  "roomIDStr = fmt.Sprintf(\"!%s\", e.EventID()[1:])",
+  "}",
+  "roomID, err := spec.NewRoomID(roomIDStr)",
+  "if err != nil {",
+  "panic(fmt.Errorf(\"RoomID is invalid: %w\", err))",
+  "}",
+  "return *roomID"
+]
+
 def eventcrypto__VerifyAllEventSignatures : List String := [
   "func func(ctx context.Context, events []PDU, verifier JSONVerifier, userIDForSender spec.UserIDForSender) []error",
   "errors := make([]error, 0, len(events))",
@@ -304,6 +1045,82 @@ def eventcrypto__validateMXIDMappingSignatures : List String := [
   "return err"
 ]
 
-def functions : List String := ["eventcrypto.go:.VerifyAllEventSignatures", "eventcrypto.go:.VerifyEventSignatures", "eventcrypto.go:.addContentHashesToEvent", "eventcrypto.go:.checkEventContentHash", "eventcrypto.go:.emptyAuthorisedViaServerName", "eventcrypto.go:.extractAuthorisedViaServerName", "eventcrypto.go:.getMXIDMapping", "eventcrypto.go:.referenceOfEvent", "eventcrypto.go:.referenceOfEventForVersion", "eventcrypto.go:.signEvent", "eventcrypto.go:.validateMXIDMappingSignatures"]
+def redactevent__redactEventJSON : List String := [
+  "func func[T unredactableEvent](eventJSON []byte, unredactableEvent T, eventTypeToKeepContentFields map[string][]string) ([]byte, error)",
+  "if err := json.Unmarshal(eventJSON, unredactableEvent); err != nil {",
+  "return nil, err",
+  "}",
+  "newContent := map[string]interface{}{}",
+  "keepContentFields, ok := eventTypeToKeepContentFields[unredactableEvent.GetType()]",
+  "if ok && len(keepContentFields) == 0 {",
+  "newContent = unredactableEvent.GetContent()",
+  "} else {",
+  "for _, contentKey := range keepContentFields {",
+  "val, ok := unredactableEvent.GetContent()[contentKey]",
+  "if ok {",
+  "newContent[contentKey] = val",
+  "}",
+  "}",
+  "}",
+  "unredactableEvent.SetContent(newContent)",
+  "return json.Marshal(&unredactableEvent)"
+]
+
+def redactevent__redactEventJSONV1 : List String := [
+  "func func(eventJSON []byte) ([]byte, error)",
+  "return redactEventJSON(eventJSON, &unredactableEventFieldsV1{}, unredactableContentFieldsV1)"
+]
+
+def redactevent__redactEventJSONV2 : List String := [
+  "func func(eventJSON []byte) ([]byte, error)",
+  "return redactEventJSON(eventJSON, &unredactableEventFieldsV1{}, unredactableContentFieldsV2)"
+]
+
+def redactevent__redactEventJSONV3 : List String := [
+  "func func(eventJSON []byte) ([]byte, error)",
+  "return redactEventJSON(eventJSON, &unredactableEventFieldsV1{}, unredactableContentFieldsV3)"
+]
+
+def redactevent__redactEventJSONV4 : List String := [
+  "func func(eventJSON []byte) ([]byte, error)",
+  "return redactEventJSON(eventJSON, &unredactableEventFieldsV1{}, unredactableContentFieldsV4)"
+]
+
+def redactevent__redactEventJSONV5 : List String := [
+  "func func(eventJSON []byte) ([]byte, error)",
+  "return redactEventJSON(eventJSON, &unredactableEventFieldsV2{}, unredactableContentFieldsV5)"
+]
+
+def redactevent_unredactableEventFieldsV1_GetContent : List String := [
+  "func func() map[string]interface{}",
+  "return u.Content"
+]
+
+def redactevent_unredactableEventFieldsV1_GetType : List String := [
+  "func func() string",
+  "return u.Type"
+]
+
+def redactevent_unredactableEventFieldsV1_SetContent : List String := [
+  "func func(content map[string]interface{})",
+  "u.Content = content"
+]
+
+def redactevent_unredactableEventFieldsV2_GetContent : List String := [
+  "func func() map[string]interface{}",
+  "return u.Content"
+]
+
+def redactevent_unredactableEventFieldsV2_GetType : List String := [
+  "func func() string",
+  "return u.Type"
+]
+
+def redactevent_unredactableEventFieldsV2_SetContent : List String := [
+  "func func(content map[string]interface{})",
+  "u.Content = content"
+]
+
+def functions : List String := ["eventV1.go:.newEventFromTrustedJSONV1", "eventV1.go:.newEventFromTrustedJSONWithEventIDV1", "eventV1.go:.newEventFromUntrustedJSONV1", "eventV1.go:eventV1.AuthEventIDs", "eventV1.go:eventV1.Content", "eventV1.go:eventV1.Depth", "eventV1.go:eventV1.EventID", "eventV1.go:eventV1.HistoryVisibility", "eventV1.go:eventV1.IsSticky", "eventV1.go:eventV1.JSON", "eventV1.go:eventV1.JoinRule", "eventV1.go:eventV1.MarshalJSON", "eventV1.go:eventV1.Membership", "eventV1.go:eventV1.OriginServerTS", "eventV1.go:eventV1.PowerLevels", "eventV1.go:eventV1.PrevEventIDs", "eventV1.go:eventV1.Redact", "eventV1.go:eventV1.Redacted", "eventV1.go:eventV1.Redacts", "eventV1.go:eventV1.RoomID", "eventV1.go:eventV1.SenderID", "eventV1.go:eventV1.SetUnsigned", "eventV1.go:eventV1.SetUnsignedField", "eventV1.go:eventV1.Sign", "eventV1.go:eventV1.StateKey", "eventV1.go:eventV1.StateKeyEquals", "eventV1.go:eventV1.StickyEndTime", "eventV1.go:eventV1.ToHeaderedJSON", "eventV1.go:eventV1.Type", "eventV1.go:eventV1.Unsigned", "eventV1.go:eventV1.Version", "eventV1.go:eventV1.assumedStickyStartTime", "eventV1.go:eventV1.calculatedStickyEndTime", "eventV2.go:.CheckFields", "eventV2.go:.newEventFromTrustedJSONV2", "eventV2.go:.newEventFromTrustedJSONWithEventIDV2", "eventV2.go:.newEventFromUntrustedJSONV2", "eventV2.go:eventV2.AuthEventIDs", "eventV2.go:eventV2.EventID", "eventV2.go:eventV2.MarshalJSON", "eventV2.go:eventV2.PrevEventIDs", "eventV2.go:eventV2.Redact", "eventV2.go:eventV2.SenderID", "eventV2.go:eventV2.SetUnsigned", "eventV2.go:eventV2.Sign", "eventV2.go:eventV2.populateEventID", "eventV3.go:.checkRoomID", "eventV3.go:.newEventFromTrustedJSONV3", "eventV3.go:.newEventFromTrustedJSONWithEventIDV3", "eventV3.go:.newEventFromUntrustedJSONV3", "eventV3.go:eventV3.AuthEventIDs", "eventV3.go:eventV3.RoomID", "eventcrypto.go:.VerifyAllEventSignatures", "eventcrypto.go:.VerifyEventSignatures", "eventcrypto.go:.addContentHashesToEvent", "eventcrypto.go:.checkEventContentHash", "eventcrypto.go:.emptyAuthorisedViaServerName", "eventcrypto.go:.extractAuthorisedViaServerName", "eventcrypto.go:.getMXIDMapping", "eventcrypto.go:.referenceOfEvent", "eventcrypto.go:.referenceOfEventForVersion", "eventcrypto.go:.signEvent", "eventcrypto.go:.validateMXIDMappingSignatures", "redactevent.go:.redactEventJSON", "redactevent.go:.redactEventJSONV1", "redactevent.go:.redactEventJSONV2", "redactevent.go:.redactEventJSONV3", "redactevent.go:.redactEventJSONV4", "redactevent.go:.redactEventJSONV5", "redactevent.go:unredactableEventFieldsV1.GetContent", "redactevent.go:unredactableEventFieldsV1.GetType", "redactevent.go:unredactableEventFieldsV1.SetContent", "redactevent.go:unredactableEventFieldsV2.GetContent", "redactevent.go:unredactableEventFieldsV2.GetType", "redactevent.go:unredactableEventFieldsV2.SetContent"]
 
 end VPins.C04
